@@ -35,6 +35,16 @@ def run_digest(prop, n, jobs, hashseed, repo=None):
     return None, out
 
 
+def replay_equivalence(props, n):
+    from sim import engine
+    bad = 0
+    for prop in props:
+        b = engine.replay_equivalence(prop, 1, n)
+        print("generation-vs-replay %s runs=%d  %s" % (prop, n, "OK" if not b else "MISMATCH in %d runs, e.g. %s" % (len(b), b[:2])))
+        bad += 1 if b else 0
+    return bad
+
+
 def determinism(props, n):
     bad = 0
     for prop in props:
@@ -356,6 +366,7 @@ def main(argv, seed, jobs):
         bad += refpeer_tests()
     if a.determinism:
         bad += determinism(props, a.determinism)
+        bad += replay_equivalence(props, max(50, a.determinism // 2))
     if a.mutants:
         bad += mutants([p for p in a.props.split(",") if p], a.runs)
     print("selftest: %s" % ("OK" if not bad else "%d FAILED" % bad))
